@@ -646,9 +646,9 @@ const maxBlockDepth = 256
 // Render renders the block node
 func (n *BlockNode) Render(w io.Writer, ctx *RenderContext) error {
 	// The definitions of this block along the extends chain, most derived first.
-	// Blocks declared at the top level of a template were registered when that
-	// template's root was rendered; a block nested inside another block, a loop or
-	// a condition registers here, as the least derived definition.
+	// The blocks of a template, nested ones included, were registered when that
+	// template's root was rendered; a block that was not registers here, as the
+	// least derived definition.
 	defs := ctx.blockDefs[n.name]
 	known := false
 	for _, def := range defs {
@@ -703,6 +703,31 @@ func (ctx *RenderContext) addBlockDef(block *BlockNode) {
 		ctx.blockOwners = make(map[*BlockNode]*Template)
 	}
 	ctx.blockOwners[block] = ctx.lastLoadedTemplate
+}
+
+// addBlockDefs records every block definition found in nodes, in source order. A block
+// written inside another block, a condition or a loop defines that block for its
+// template just like one written at the top level.
+func (ctx *RenderContext) addBlockDefs(nodes []Node) {
+	for _, node := range nodes {
+		switch n := node.(type) {
+		case *BlockNode:
+			ctx.addBlockDef(n)
+			ctx.addBlockDefs(n.body)
+		case *IfNode:
+			for _, body := range n.bodies {
+				ctx.addBlockDefs(body)
+			}
+			ctx.addBlockDefs(n.elseBranch)
+		case *ForNode:
+			ctx.addBlockDefs(n.body)
+			ctx.addBlockDefs(n.elseBranch)
+		case *ApplyNode:
+			ctx.addBlockDefs(n.body)
+		case *SpacelessNode:
+			ctx.addBlockDefs(n.body)
+		}
+	}
 }
 
 // enterBlockDef makes the template that owns a block definition the current template
@@ -1507,13 +1532,12 @@ func (n *RootNode) Render(w io.Writer, ctx *RenderContext) error {
 	// Register this template's blocks behind the definitions of the templates
 	// extending it (if any), so that the most derived definition comes first
 	for _, child := range n.children {
-		if block, ok := child.(*BlockNode); ok {
-			ctx.addBlockDef(block)
-		} else if ext, ok := child.(*ExtendsNode); ok {
+		if ext, ok := child.(*ExtendsNode); ok {
 			// If this is an extends node, record it for later
 			extendsNode = ext
 		}
 	}
+	ctx.addBlockDefs(n.children)
 
 	// If this template extends another, handle that first
 	if extendsNode != nil {
